@@ -270,6 +270,9 @@ func (e *Exec) prepareCall(fr *frame, cc *ssa.CallCommon) (*ssa.Function, []Valu
 		if recv.t == opaqueErrType {
 			return e.opaqueMethod(cc.Method.Name()), args, nil
 		}
+		if recv.t == reflectTypeType {
+			return e.opaqueMethod("reflect.Type." + cc.Method.Name()), args, nil
+		}
 		fn := e.prog.LookupMethod(recv.t, cc.Method.Pkg(), cc.Method.Name())
 		if fn == nil {
 			panic(unsupported(fmt.Sprintf("no method %s on %s", cc.Method.Name(), recv.t)))
